@@ -340,6 +340,7 @@ func (e *Engine) verifyLemma(lm *Lemma) *FuncResult {
 	g := fc.evalBool(env, &Clause{Text: lm.Text, Expr: lm.Expr, Pos: res.Pos})
 	lm.Formula = g
 	lm.Header = strings.Join(fc.sc.header, "\n")
+	lm.HeaderList = append([]string{}, fc.sc.header...)
 	// keep binders and body for explicit instantiation (`apply`)
 	if decls, body, ok := splitQuant(g); ok && strings.HasPrefix(g, "(forall ") {
 		lm.Binders = decls
